@@ -209,7 +209,8 @@ def requests(cfg, rng, n, tier, part, nparts, st):
     if cfg.bits == 16 and part == 0:
         for v in range(0, 65536, 5):
             yield 'tof', (cfg.val(v),)
-    ks = list(range(0, cfg.bits + 1))
+    stride = max(1, -(-(cfg.bits + 1) // max(256, 2 * n * nparts)))
+    ks = list(range(rng.randrange(stride), cfg.bits + 1, stride))
     lo, hi = (len(ks) * part // nparts, len(ks) * (part + 1) // nparts)
     for k in ks[lo:hi]:
         for v in ((1 << k) - 1, 1 << k, (1 << k) | rng.getrandbits(k) if k else 1):
